@@ -764,11 +764,8 @@ impl StunClient {
         assert(self.transactions@.contains_key(cur));
         assert(self.transactions@ =~= tr0.insert(cur, self.transactions@[cur]));
     }
-//@after "self.transactions.remove(&transaction_id);"
-    proof {
-        ids = ids.push(transaction_id);
-        assert(self.transactions@ =~= tr0.remove(cur));
-    }
+//@after "events.push(event);"
+    proof { ids = ids.push(transaction_id); }
 //@loopend 1
     proof {
         let tr1 = self.transactions@;
